@@ -10,7 +10,7 @@ use std::panic::{catch_unwind, AssertUnwindSafe};
 struct Ctx { evaluated: u64, failed: std::collections::HashSet<String> }
 impl Ctx {
     fn fail(&mut self, f: &str, clause: &str, input: String, observed: String, expected: String) {
-        if self.failed.insert(f.to_string()) {
+        if self.failed.insert(format!("{}::{}", f, clause)) {
             println!("FAIL fn=[[{}]] clause=[[{}]] input=[[{}]] observed=[[{}]] expected=[[{}]]", f, clause, input, observed, expected);
         }
     }
@@ -82,6 +82,76 @@ fn chk_classify(c: &mut Ctx, las: &[(u32, u32, String)], unstaged: &[u32], hunks
         Err(p) => c.fail("region_split_classify", "safety", input, p, "no panic (commit line = working-tree line - unstaged lines above it)".into()),
     }
 }
+// ---------------------------------------------------------------- whole-scenario oracle for the split
+// A synthetic commit + unstaged edits, described the way `git diff -U0` would report them; the ORIGINAL filter statements
+// (region_filter_unstaged, replay only) and the ORIGINAL region split_classify are run on it.
+// input: S;<commit file over H (old line) / A (AI line added by this commit)>;<one token per commit line + one for the end>
+//   token = [i|j]* then k|m|d ; i = a hand-typed line inserted before (unstaged), j = an AI line inserted before (unstaged),
+//   k keep, m modify in place (unstaged, H only), d delete (unstaged, H only); the last token has inserts only (or "-")
+#[derive(Clone)] struct WL { origin: Option<u32>, ai: Option<&'static str>, un: u8 }
+fn chk_scenario(c: &mut Ctx, file: &str, edits: &[String]) {
+    let n = file.len();
+    if edits.len() != n + 1 { return; }
+    let fb = file.as_bytes();
+    let mut wl: Vec<WL> = vec![]; let mut has_md = false;
+    // edit sites must be separated by a kept line (otherwise git would merge them into one hunk and the model below is wrong)
+    let site = |t: &str| t != "k" && t != "-";
+    for i in 0..n { if site(&edits[i]) && i + 1 <= n && site(&edits[i + 1]) { return; } }
+    for (i, t) in edits.iter().enumerate() {
+        for ch in t.chars() {
+            match ch {
+                'i' => wl.push(WL { origin: None, ai: None, un: 1 }),
+                'j' => wl.push(WL { origin: None, ai: Some("ai2"), un: 1 }),
+                'k' => wl.push(WL { origin: Some(i as u32 + 1), ai: if fb[i] == b'A' { Some("ai1") } else { None }, un: 0 }),
+                'm' => { if i >= n || fb[i] != b'H' { return; } has_md = true; wl.push(WL { origin: None, ai: None, un: 2 }) }
+                'd' => { if i >= n || fb[i] != b'H' { return; } has_md = true; }
+                '-' => {}
+                _ => return,
+            }
+        }
+        if i < n && !t.ends_with(['k', 'm', 'd']) { return; }
+        if i == n && t.contains(['k', 'm', 'd']) { return; }
+    }
+    c.evaluated += 1;
+    let input = format!("S;{};{}", file, edits.join(" "));
+    let fp = "f".to_string();
+    let cl: Vec<u32> = (0..n).filter(|&i| fb[i] == b'A').map(|i| i as u32 + 1).collect();
+    let ul: Vec<u32> = (0..wl.len()).filter(|&w| wl[w].un != 0).map(|w| w as u32 + 1).collect();
+    let pl: Vec<u32> = (0..wl.len()).filter(|&w| wl[w].un == 1).map(|w| w as u32 + 1).collect();
+    let mut ch: StdHashMap<String, Vec<LineRange>> = StdHashMap::new(); let mut uh = ch.clone(); let mut ph = ch.clone();
+    if !cl.is_empty() { ch.insert(fp.clone(), LineRange::compress_lines(&cl)); }
+    if !ul.is_empty() { uh.insert(fp.clone(), LineRange::compress_lines(&ul)); }
+    if !pl.is_empty() { ph.insert(fp.clone(), LineRange::compress_lines(&pl)); }
+    // line attributions of the working tree: runs of equal AI author
+    let mut lav: Vec<LineAttribution> = vec![];
+    for (w, l) in wl.iter().enumerate() { if let Some(a) = l.ai { let ln = w as u32 + 1; match lav.last_mut() { Some(x) if x.author_id == a && x.end_line + 1 == ln => x.end_line = ln, _ => lav.push(LineAttribution { start_line: ln, end_line: ln, author_id: a.to_string(), overrode: None }) } } }
+    let mut want_c: BTreeSet<(String, u32)> = BTreeSet::new(); let mut want_u: BTreeSet<(String, u32)> = BTreeSet::new();
+    for (w, l) in wl.iter().enumerate() { match (l.origin, l.ai) { (Some(o), Some(a)) => { want_c.insert((a.to_string(), o)); } (None, Some(a)) => { want_u.insert((a.to_string(), w as u32 + 1)); } _ => {} } }
+    let clause = if has_md { "translation_with_unstaged_modification_or_deletion" } else { "scenario" };
+    let res = guarded(|| {
+        let uh2 = region_filter_unstaged(ch.clone(), uh.clone(), ph.clone());
+        let mut unstaged: Vec<u32> = uh2.get(&fp).map(|v| v.iter().flat_map(|r| r.expand()).collect()).unwrap_or_default(); unstaged.sort_unstable();
+        region_split_classify(&lav, unstaged, &ch, &fp, HashSet::new())
+    });
+    match res {
+        Ok((cm, um)) => {
+            let flat = |m: &StdHashMap<String, Vec<u32>>| -> BTreeSet<(String, u32)> { m.iter().flat_map(|(k, v)| v.iter().map(move |x| (k.clone(), *x))).collect() };
+            if flat(&cm) != want_c { c.fail("region_split_classify", clause, input.clone(), format!("recorded for the commit {:?}", flat(&cm)), format!("{:?} (every AI line the commit added, at its line number in the commit)", want_c)); }
+            else if flat(&um) != want_u { c.fail("region_split_classify", clause, input, format!("carried over {:?}", flat(&um)), format!("{:?} (the unstaged AI lines)", want_u)); }
+        }
+        Err(p) => c.fail("region_split_classify", if has_md { clause } else { "safety" }, input, p, "no panic".into()),
+    }
+}
+fn gen_scenarios(c: &mut Ctx, g: &mut Rng) {
+    let files = ["HHHAAA", "AAAHHH", "HHAAHH", "HAHAHH", "HHHHAAAAA", "AHHHA"];
+    let toks = ["k", "k", "k", "m", "d", "ik", "jk", "iik", "jjk"];
+    for _ in 0..30000 {
+        let f = files[g.below(6) as usize];
+        let mut e: Vec<String> = (0..f.len()).map(|_| toks[g.below(9) as usize].to_string()).collect();
+        e.push(["-", "-", "i", "j"][g.below(4) as usize].to_string());
+        chk_scenario(c, f, &e);
+    }
+}
 fn main() {
     std::panic::set_hook(Box::new(|_| {}));
     let a: Vec<String> = std::env::args().collect();
@@ -96,7 +166,12 @@ fn main() {
             for s1 in 1u32..6 { for e1 in s1..7 { chk_classify(&mut c, &[(s1, e1, "ai1".into())], &un, Some(&[(1, 2), (4, 4)])); chk_classify(&mut c, &[(s1, e1, "ai1".into()), (e1 + 1, e1 + 2, "ai2".into())], &un, Some(&[(2, 5)])); } }
             chk_classify(&mut c, &[(1, 6, "ai1".into())], &un, None);
         }
+        gen_scenarios(&mut c, &mut g);
         for _ in 0..20000 { let base = if g.below(4) == 0 { u32::MAX - 40 } else { g.below(50) as u32 }; let n = 1 + g.below(14) as usize; let mut v = vec![]; let mut cur = base; for _ in 0..n { let step = 1 + if g.below(2) == 0 { 0 } else { g.below(4) as u32 }; match cur.checked_add(step) { Some(nx) => { cur = nx; v.push(cur); } None => break } } chk(&mut c, &v); }
+    } else if a[3].starts_with("S;") {
+        let p: Vec<&str> = a[3].split(';').collect();
+        let e: Vec<String> = p[2].split(' ').map(|x| x.to_string()).collect();
+        chk_scenario(&mut c, p[1], &e);
     } else if a[3].starts_with("C;") {
         let p: Vec<&str> = a[3].split(';').collect();
         let las: Vec<(u32, u32, String)> = p[1].split_whitespace().map(|t| { let q: Vec<&str> = t.split('-').collect(); (q[0].parse().unwrap(), q[1].parse().unwrap(), q[2].to_string()) }).collect();
